@@ -1,9 +1,12 @@
-(* C12 -- executable model of the receiving-speaker ("helper") side of graceful restart for one peer and one address
-   family (IPv4 unicast), in whole seconds:
+(* C12 -- executable model of the receiving-speaker ("helper") side of graceful restart for one peer with the address
+   families IPv4 unicast (4) and IPv6 unicast (6), in whole seconds:
      pkg/server/fsm.go     established() (classification of the loss reason as graceful, restart timer),
-                           recvMessageloop (hard reset), idle/active/opensent/openconfirm (restart-timer expiry)
-     pkg/server/server.go  handleFSMMessage (PeerDown: StaleAll / dropAdjRIBIn; nextStateIdle: timer expiry;
-                           End-of-RIB: DropStale), stateChange (GR / N-bit negotiation)
+                           recvMessageloop (hard reset), idle/active/opensent/openconfirm (restart-timer expiry),
+                           stateChange (GR / N-bit / per-family negotiation)
+     pkg/server/server.go  handleFSMMessage (PeerDown: StaleAll of the forwarding-preserved families, dropAdjRIBIn of
+                           the others; nextStateIdle: timer expiry; Established without GR families; End-of-RIB:
+                           DropStale once every negotiated GR family has sent it)
+     pkg/server/peer.go    forwardingPreservedFamilies, allNegotiatedEORReceived
      internal/pkg/table/adj.go StaleAll, DropStale
    Long-lived GR and the restarting-speaker side (deferral) are NOT modelled.  Definitions only. *)
 From Coq Require Import List ZArith Bool.
@@ -11,42 +14,43 @@ Import ListNotations.
 Open Scope Z_scope.
 
 Record gcfg := mkGC { gc_local_gr : bool; gc_local_notif : bool }.
-(* what the peer announced in its OPEN: graceful-restart capability with IPv4 unicast forwarding state (restart time,
-   N bit), or nothing *)
-Definition gcap := option (Z * bool).
+(* the peer's graceful-restart capability: restart time, N bit, and whether it lists IPv4 / IPv6 unicast *)
+Record gcapv := mkCap { cap_time : Z; cap_n : bool; cap_f4 : bool; cap_f6 : bool }.
+Definition gcap := option gcapv.
 
 Inductive loss :=
-| LTransport                (* read/write failure, connection closed by the peer *)
-| LHoldExpired              (* our hold timer expired: NOTIFICATION (4,0) sent *)
-| LNotifRecv (c s : Z)      (* NOTIFICATION received *)
-| LAdmin.                   (* local administrative shutdown / reset / deconfiguration *)
+| LTransport | LHoldExpired | LNotifRecv (c s : Z) | LAdmin.
 
 Record gstate := mkGS {
   gs_est : bool;
-  gs_cap : gcap;                    (* negotiated on the current (or last) session *)
-  gs_restarting : bool;             (* GracefulRestart.State.PeerRestarting *)
-  gs_timer : option Z;              (* restart timer: seconds left *)
-  gs_routes : list (Z * bool)       (* Adj-RIB-In: prefix -> stale?  (first match) *)
+  gs_cap : gcap;                         (* negotiated on the current (or last) session *)
+  gs_restarting : bool;                  (* GracefulRestart.State.PeerRestarting *)
+  gs_timer : option Z;                   (* restart timer: seconds left *)
+  gs_eor4 : bool; gs_eor6 : bool;        (* End-of-RIB received on the current session *)
+  gs_routes : list ((Z * Z) * bool)      (* Adj-RIB-In: (family, prefix) -> stale?  (first match) *)
 }.
 
 Inductive gevent :=
 | GUp (cap : gcap)
-| GAnn (p : Z) | GWd (p : Z) | GEor
+| GAnn (f p : Z) | GWd (f p : Z) | GEor (f : Z)
 | GLoss (k : loss)
 | GTick.
 
-Fixpoint rset (p : Z) (st : bool) (l : list (Z * bool)) : list (Z * bool) :=
-  match l with [] => [(p, st)] | (q, s) :: r => if q =? p then (p, st) :: r else (q, s) :: rset p st r end.
-Fixpoint rdel (p : Z) (l : list (Z * bool)) : list (Z * bool) :=
-  match l with [] => [] | (q, s) :: r => if q =? p then rdel p r else (q, s) :: rdel p r end.
+Definition keq (a b : Z * Z) : bool := (fst a =? fst b) && (snd a =? snd b).
+Fixpoint rset (k : Z * Z) (st : bool) (l : list ((Z * Z) * bool)) : list ((Z * Z) * bool) :=
+  match l with [] => [(k, st)] | (q, s) :: r => if keq q k then (k, st) :: r else (q, s) :: rset k st r end.
+Fixpoint rdel (k : Z * Z) (l : list ((Z * Z) * bool)) : list ((Z * Z) * bool) :=
+  match l with [] => [] | (q, s) :: r => if keq q k then rdel k r else (q, s) :: rdel k r end.
 
+(* is family f one for which graceful restart was negotiated (MpGracefulRestart.State.Enabled && Received)? *)
+Definition fam_gr (k : gcfg) (c : gcap) (f : Z) : bool :=
+  gc_local_gr k && match c with Some v => if f =? 4 then cap_f4 v else if f =? 6 then cap_f6 v else false | None => false end.
 Definition gr_negotiated (k : gcfg) (s : gstate) : bool :=
   gc_local_gr k && match gs_cap s with Some _ => true | None => false end.
 Definition nbit_negotiated (k : gcfg) (s : gstate) : bool :=
-  gc_local_notif k && match gs_cap s with Some (_, n) => n | None => false end.
-Definition restart_time (s : gstate) : Z := match gs_cap s with Some (t, _) => t | None => 0 end.
+  gc_local_notif k && match gs_cap s with Some v => cap_n v | None => false end.
+Definition restart_time (s : gstate) : Z := match gs_cap s with Some v => cap_time v | None => 0 end.
 
-(* is the loss one that keeps the routes (RFC 4724 / RFC 8538)? *)
 Definition qualifying (k : gcfg) (s : gstate) (l : loss) : bool :=
   gr_negotiated k s &&
   match l with
@@ -55,36 +59,45 @@ Definition qualifying (k : gcfg) (s : gstate) (l : loss) : bool :=
   | LAdmin => false
   end.
 
+(* allNegotiatedEORReceived *)
+Definition all_eor (k : gcfg) (c : gcap) (e4 e6 : bool) : bool :=
+  (negb (fam_gr k c 4) || e4) && (negb (fam_gr k c 6) || e6).
+Definition fresh_only (l : list ((Z * Z) * bool)) : list ((Z * Z) * bool) := filter (fun r => negb (snd r)) l.
+
 Definition gstep (k : gcfg) (s : gstate) (e : gevent) : gstate :=
   match e with
   | GUp cap =>
       if gs_est s then s
-      else
-        let s1 := mkGS true cap (gs_restarting s) None (gs_routes s) in     (* established(): the restart timer is stopped *)
-        if gs_restarting s && negb (gr_negotiated k s1)
-        then (* RFC 4724 4.2: the peer came back without the capability: no End-of-RIB will come, the stale routes go now *)
-             mkGS true cap false None (filter (fun r => negb (snd r)) (gs_routes s))
-        else s1
-  | GAnn p => if gs_est s then mkGS true (gs_cap s) (gs_restarting s) (gs_timer s) (rset p false (gs_routes s)) else s
-  | GWd p => if gs_est s then mkGS true (gs_cap s) (gs_restarting s) (gs_timer s) (rdel p (gs_routes s)) else s
-  | GEor =>
-      if gs_est s && gs_restarting s
-      then mkGS true (gs_cap s) false (gs_timer s) (filter (fun r => negb (snd r)) (gs_routes s))
+      else if gs_restarting s && all_eor k cap false false
+           then (* RFC 4724 4.2: back without any graceful-restart family: no End-of-RIB is awaited, the stale routes go now *)
+                mkGS true cap false None false false (fresh_only (gs_routes s))
+           else mkGS true cap (gs_restarting s) None false false (gs_routes s)
+  | GAnn f p => if gs_est s then mkGS true (gs_cap s) (gs_restarting s) (gs_timer s) (gs_eor4 s) (gs_eor6 s) (rset (f, p) false (gs_routes s)) else s
+  | GWd f p => if gs_est s then mkGS true (gs_cap s) (gs_restarting s) (gs_timer s) (gs_eor4 s) (gs_eor6 s) (rdel (f, p) (gs_routes s)) else s
+  | GEor f =>
+      if gs_est s then
+        let e4 := gs_eor4 s || (f =? 4) in
+        let e6 := gs_eor6 s || (f =? 6) in
+        if gs_restarting s && all_eor k (gs_cap s) e4 e6
+        then mkGS true (gs_cap s) false (gs_timer s) e4 e6 (fresh_only (gs_routes s))
+        else mkGS true (gs_cap s) (gs_restarting s) (gs_timer s) e4 e6 (gs_routes s)
       else s
   | GLoss l =>
       if gs_est s then
         if qualifying k s l
-        then mkGS false (gs_cap s) true (Some (restart_time s)) (map (fun r => (fst r, true)) (gs_routes s))
-        else mkGS false (gs_cap s) false None []
+        then (* the routes of the forwarding-preserved families stay, marked stale; all others are removed at once *)
+             mkGS false (gs_cap s) true (Some (restart_time s)) false false
+                  (map (fun r => (fst r, true)) (filter (fun r => fam_gr k (gs_cap s) (fst (fst r))) (gs_routes s)))
+        else mkGS false (gs_cap s) false None false false []
       else s
   | GTick =>
       match gs_timer s with
       | Some t => if (t - 1 <=? 0) && negb (gs_est s)
-                  then mkGS false (gs_cap s) false None []            (* restart timer expired: all stale routes go *)
-                  else mkGS (gs_est s) (gs_cap s) (gs_restarting s) (Some (t - 1)) (gs_routes s)
+                  then mkGS false (gs_cap s) false None false false []
+                  else mkGS (gs_est s) (gs_cap s) (gs_restarting s) (Some (t - 1)) (gs_eor4 s) (gs_eor6 s) (gs_routes s)
       | None => s
       end
   end.
 
-Definition ginit : gstate := mkGS false None false None [].
+Definition ginit : gstate := mkGS false None false None false false [].
 Definition grun (k : gcfg) (h : list gevent) : gstate := fold_left (gstep k) h ginit.
